@@ -262,3 +262,38 @@ async def misaddressed_packet_has_no_effect(port: int, rport: int, spa_id: bytes
         ensures("misaddressed-packet-has-no-effect", len(proto.received) == 0)
     cover("only-the-client-identifier-differs", both(same_ip, rport == port, src == spa_id, dst != client_id))
     cover("ours", ours)
+
+
+# -------------------------------------------------- malformed framing after a good packet
+class Frame:
+    parts = None
+
+
+@summary("geckolib.driver.protocol.packet:GeckoPacketProtocolHandler._extract_packet_parts", name="frame_parser_contract", assumed=True,
+         note="ASSUMED (regular expression, checked bounded in C04): the three fields of a well-formed frame, (None, None, None) otherwise")
+def frame_parser_contract(self, content):
+    if Frame.parts is None:
+        return (None, None, None)
+    return Frame.parts
+
+
+@harness(prop="C07", target="geckolib.driver.protocol.packet:GeckoPacketProtocolHandler.handle", uses=["frame_parser_contract"],
+         name="malformed_frame_after_a_good_one_has_no_effect")
+async def malformed_frame_after_a_good_one_has_no_effect(port: int, spa_id: bytes, client_id: bytes, content: bytes, garbage: bytes):
+    """the long-lived packet consumer: an addressed packet, then a packet whose inner framing does not parse"""
+    spa = new(GeckoAsyncSpa)
+    spa._observers = []
+    spa.descriptor = Desc("10.0.0.9", port, spa_id)
+    spa.client_id = client_id
+    proto = RecProto()
+    spa._protocol = proto
+    h = GeckoPacketProtocolHandler(async_on_handled=spa._async_on_packet)
+    sender = ("10.0.0.9", port)
+    Frame.parts = (spa_id, client_id, content)
+    h.handle(b"<PACKT>" + content + b"</PACKT>", sender)
+    await h.async_handled(sender)
+    ensures("addressed-packet-delivered-once", both(len(proto.received) == 1, proto.received[0][0] is content))
+    Frame.parts = None
+    h.handle(b"<PACKT>" + garbage + b"</PACKT>", sender)
+    await h.async_handled(sender)
+    ensures("malformed-frame-has-no-effect", len(proto.received) == 1)
